@@ -529,13 +529,18 @@ func r076as(c *an.Ctx, rule string) {
 	n := 0
 	for _, fn := range e2Scope(c) {
 		var writers []*ssa.Function
+		writerCalls := map[*ssa.Call]bool{} // InterceptBefore(…) calls whose callback writes its `new`
 		for _, call := range an.CallsTo(fn, an.ModulePath+"/pkg/resource.InterceptBefore") {
-			g := an.ClosureFn(call.Common().Args[0])
-			if g == nil || len(g.Params) < 2 {
-				continue
-			}
-			if len(w.AnalyseParams(g, g.Params[1])) > 0 {
-				writers = append(writers, g)
+			for _, g := range beforeBodies(call.Common().Args[0]) {
+				if len(g.Params) < 2 {
+					continue
+				}
+				if len(w.AnalyseParams(g, g.Params[len(g.Params)-1])) > 0 {
+					writers = append(writers, g)
+					if cl, isCall := call.(*ssa.Call); isCall {
+						writerCalls[cl] = true
+					}
+				}
 			}
 		}
 		if len(writers) == 0 {
@@ -583,6 +588,36 @@ func r076as(c *an.Ctx, rule string) {
 						}
 					}
 				})
+				// … or anywhere in what the option list is built from (append chains, conditional additions)
+				if !usesWriter {
+					seen := map[ssa.Value]bool{}
+					var visit func(v ssa.Value)
+					visit = func(v ssa.Value) {
+						if v == nil || seen[v] {
+							return
+						}
+						seen[v] = true
+						for _, s0 := range an.Sources(v) {
+							switch x := s0.(type) {
+							case *ssa.Call:
+								if writerCalls[x] {
+									usesWriter = true
+								}
+								if an.CalleeName(x) == "builtin append" {
+									for _, a2 := range x.Call.Args {
+										visit(a2)
+									}
+								}
+							case *ssa.Slice:
+								visit(x.X)
+								for _, e := range variadicElems(x) {
+									visit(e)
+								}
+							}
+						}
+					}
+					visit(last)
+				}
 				if !usesWriter {
 					continue
 				}
@@ -860,4 +895,34 @@ func isGeneratedMessagePtr(c *an.Ctx, t types.Type) bool {
 		return false
 	}
 	return strings.HasSuffix(c.Prog.SSA.Fset.Position(nt.Obj().Pos()).Filename, ".pb.go")
+}
+
+// beforeBodies: the function bodies an InterceptBefore argument can stand for - a literal, a named function, a method
+// value, or the closure(s) returned by a module function that builds the interceptor (m.relativeAdjustment(steps)).
+func beforeBodies(arg ssa.Value) []*ssa.Function {
+	var out []*ssa.Function
+	for _, s := range an.SourcesOpaque(arg) {
+		if body, _, _ := an.CallbackBody(s); body != nil && len(body.Blocks) > 0 {
+			out = append(out, body)
+			continue
+		}
+		if call, ok := s.(*ssa.Call); ok {
+			if f := call.Call.StaticCallee(); f != nil && an.InModule(f) {
+				for _, r := range an.Returns(f) {
+					if len(r.Results) != 1 {
+						continue
+					}
+					for _, rs := range an.SourcesOpaque(r.Results[0]) {
+						if body, _, _ := an.CallbackBody(rs); body != nil && len(body.Blocks) > 0 {
+							out = append(out, body)
+						}
+					}
+				}
+			}
+		}
+	}
+	if g := an.ClosureFn(arg); g != nil && len(out) == 0 {
+		out = append(out, g)
+	}
+	return out
 }
